@@ -393,6 +393,40 @@ def decoder_mid_scan(ctx, msg):
         del recent[:]
 
 
+def decoder_scan_spans(ctx, dec, cell):
+    """the bytes a SCAN reports for a message are its span from BUFR to the closing 7777 - in metadata-only scans too, and also when
+    the text 7777 / BUFR occurs inside the message (section 2 local octets, surplus octets of section 1, character data)"""
+    from pybufrkit.decoder import generate_bufr_message
+    B, D = cases.tables(33)
+    rng = ctx.rng
+    msgs = []
+    for ed, sec2, ids, surplus in ((4, b'LOC7777X', [1015, 1001], None), (3, b'7777', [1001, 12001], {1: 2}), (4, None, [205008, 1001], {1: 4}),
+                                    (2, b'BUFR7777', [1015], None)):
+        try:
+            from mon.gen.streams import PayloadPolicy
+            m = R.build_message(ids, B, D, PayloadPolicy(rng, [b'AB7777CD', b'7777', b'x7777']), 2, False, ed,
+                                dict(update_sequence_number=len(msgs)), sec2, surplus=surplus)
+            msgs.append(m)
+        except Exception:
+            continue
+    if not msgs:
+        return
+    stream = b'\r\r\n'.join(m.bytes for m in msgs) + b'\r\r\n'
+    for kw in (dict(info_only=True), {}, dict(info_only=True, filter_expr='${%edition} >= 2')):
+        mode = '+'.join(sorted(kw)) or 'full'
+        spec = dict(side='decoder-scan-span', cell=cell, mode=mode, hex=stream.hex())
+        ctx.count('dec_scan_span_streams')
+        ctx.evaluated(('dec-scan-span', mode, stream.hex()), True)
+        try:
+            got = [bytes(m.serialized_bytes) for m in generate_bufr_message(dec, stream, **kw)]
+        except Exception as e:
+            ctx.violate('dec/scan-span/exception:%s/%s' % (type(e).__name__, mode), 'scanning well-formed messages that hold the text 7777 raised %r' % (e,), spec, exc=e)
+            continue
+        if got != [m.bytes for m in msgs]:
+            ctx.violate('dec/scan-span/serialized-bytes/%s' % mode, 'a %s scan reports messages of %r octets, the spans BUFR..7777 have %r'
+                        % (mode, [len(g) for g in got], [len(m.bytes) for m in msgs]), spec)
+
+
 def decoder_wrong_total(ctx, dec, msg, cell):
     """the message's bytes are the span from BUFR to 7777 (what the sections occupy) whatever follows - also when the
     total-length field of section 0 does not agree with that span (the decoder does not use that field in a full decode)"""
@@ -534,6 +568,8 @@ def run(ctx):
                 decoder_signatures(ctx, dec, msg, cell)
                 decoder_option_orders(ctx, dec, msg, cell)
                 decoder_mid_scan(ctx, msg)
+                if r % 4 == 0:
+                    decoder_scan_spans(ctx, dec, cell)
     # random richer messages (multi-subset, compressed, long section 2)
     k = 0
     quota = 150 if ctx.quick else 2500
